@@ -3,6 +3,100 @@ from gen.util import kvs, tparse, pick_outcome
 
 
 VIAS = [" via=readyclone", " via=swap", " via=template", " via=clone"]
+PRESETS = {"small": 10, "medium": 50, "large": 200}      # BulkheadLayer::small()/medium()/large(): max; all reject when full
+RDY_FAIL = ["e", "e", "pe", "p", "pp"]                     # readiness scripts after which the handle is not called
+RDY_OK = ["r", "pr", "ppr"]                                # … after which it is
+
+
+def rdy_outcome(script):
+    """what a readiness script (answers of the inner service to successive poll_ready calls) comes to for the caller:
+    'ready' / 'error' / 'notready' (the caller polls until an answer other than pending, or until the script ends)"""
+    if script is None:
+        return "ready"
+    rest = script.lstrip("p")
+    if not rest:
+        return "notready"
+    return "error" if rest[0] == "e" else "ready"
+
+
+class Dims:
+    """the dimensions of one generated case that concern how handles, services and the layer are obtained"""
+    def __init__(self, rng, nsvc=None):
+        self.nsvc = nsvc if nsvc is not None else rng.choice([1, 1, 1, 2, 2, 3])
+        self.svc_p = rng.choice([0.3, 0.5, 0.7])          # how many arrivals go to a service other than 0
+        self.rdy_p = rng.choice([0, 0, 0.08, 0.2])         # arrivals whose handle does not become ready (inner readiness fails / stays pending)
+        self.rdyok_p = rng.choice([0, 0, 0.2])             # arrivals whose handle is pending first, then ready
+        self.pool_p = rng.choice([0, 0, 0.3, 0.7])         # arrivals that re-use a kept handle (h.call(); h.call(); clones of used handles)
+        self.via_p = rng.choice([0, 0.3, 0.7, 1.0])        # how callers obtain the handle they call (clone / clone of a ready handle / swap idiom / the template)
+        self.burn_p = rng.choice([0, 0, 0.15, 0.5])        # callers whose task has used up its cooperative budget before the first poll
+
+    def svc(self, rng):
+        if self.nsvc > 1 and rng.random() < self.svc_p:
+            return rng.randint(1, self.nsvc - 1)
+        return 0
+
+    def words(self, rng, svc=None, may_fail=True):
+        """the handle-related words of one `arrive`"""
+        w = ""
+        k = self.svc(rng) if svc is None else svc
+        if k:
+            w += " svc=%d" % k
+        if rng.random() < self.pool_p:
+            w += " via=pool h=%d" % rng.randint(0, 2)
+            if rng.random() < 0.3:
+                w += " from=%d" % rng.randint(0, 2)
+        elif rng.random() < self.via_p:
+            w += rng.choice(VIAS)
+        if may_fail and rng.random() < self.rdy_p:
+            w += " rdy=" + rng.choice(RDY_FAIL)
+        elif rng.random() < self.rdyok_p:
+            w += " rdy=" + rng.choice(RDY_OK)
+        if rng.random() < self.burn_p:
+            w += " burn=1"
+        return w
+
+
+def gen_preset(rng, tier):
+    """the layer built through a preset constructor and used as it comes: fill it to its documented capacity (10 / 50 /
+    200 calls inside), one more is rejected at once (the presets reject when full), free some slots, fill again"""
+    name = rng.choice(["small", "small", "small", "medium", "medium", "large"])
+    mx = PRESETS[name]
+    header = "bulkhead preset=%s" % name + (" name=p%d" % rng.randint(0, 9) if rng.random() < 0.5 else "")
+    d = Dims(rng, nsvc=rng.choice([1, 1, 2]))
+    d.rdy_p, d.rdyok_p, d.burn_p = rng.choice([0, 0.03]), 0, 0
+    ops = []
+    nxt = [1]
+    inside = {k: [] for k in range(d.nsvc)}
+
+    def arrive(k, lat, out):
+        c = nxt[0]
+        nxt[0] += 1
+        w = d.words(rng, svc=k)
+        ops.append("arrive %d inner=%d:%s%s" % (c, lat, out, w))
+        ops.append("poll %d" % c)
+        if rdy_outcome(w.split("rdy=")[1].split()[0] if "rdy=" in w else None) == "ready":
+            inside[k].append(c)
+        return c
+    k0 = rng.randint(0, d.nsvc - 1)
+    for _ in range(mx + rng.randint(0, 2)):
+        arrive(k0, rng.choice([1000, 1000, 5]), rng.choice(["never", "ok", "ok"]))
+    for _ in range(rng.randint(0, 4)):
+        r = rng.random()
+        if r < 0.4 and inside[k0]:
+            c = inside[k0].pop(rng.randrange(len(inside[k0])))
+            ops.append("drop %d" % c)
+        elif r < 0.6:
+            ops.append("adv %d" % rng.choice([5, 1000]))
+            ops.append("settle")
+        else:
+            arrive(rng.randint(0, d.nsvc - 1), rng.choice([0, 5, 1000]), pick_outcome(rng))
+    if d.nsvc > 1:
+        # the other service, built from the same layer value, has its own full capacity
+        for _ in range(rng.randint(1, mx + 1)):
+            arrive(1 - k0 if d.nsvc == 2 else rng.randint(0, d.nsvc - 1), 1000, "never")
+    ops.append("settle")
+    return {"header": header, "ops": ops}
+
 
 
 def gen_fanout(rng, tier):
@@ -15,8 +109,10 @@ def gen_fanout(rng, tier):
     ops = []
     ids = list(range(1, n + 1))
     early = rng.randint(0, mx) if rng.random() < 0.4 else 0    # polled (admitted) before the handles go
+    d = Dims(rng)                                              # (several services from the layer: ALL their handles and the layer go)
+    d.burn_p = 0
     for c in ids:
-        ops.append("arrive %d inner=%d:%s%s" % (c, rng.choice([5, 10, 1000]), pick_outcome(rng), rng.choice(VIAS + ["", ""])))
+        ops.append("arrive %d inner=%d:%s%s" % (c, rng.choice([5, 10, 1000]), pick_outcome(rng), d.words(rng)))
     for c in ids[:early]:
         ops.append("poll %d" % c)
     ops.append("manual dropsvc")
@@ -31,8 +127,11 @@ def gen_fanout(rng, tier):
 
 
 def gen(rng, tier):
-    if rng.random() < 0.08:
+    r = rng.random()
+    if r < 0.08:
         return gen_fanout(rng, tier)
+    if r < 0.13:
+        return gen_preset(rng, tier)
     mx = rng.choice([1, 1, 2, 2, 3, 4])
     wait = rng.choice([None, None, 0, rng.randint(1, 50), rng.randint(1, 50), rng.choice([5, 10, 20])])
     header = "bulkhead max=%d" % mx + ("" if wait is None else " wait=%d" % wait)
@@ -47,8 +146,17 @@ def gen(rng, tier):
     elif r0 < 0.18:
         header += " post=reject"          # … set last: zero wait wins
         wait = 0
-    burn_p = rng.choice([0, 0, 0.15, 0.5])  # callers whose task has used up its cooperative budget before the first poll
-    via_p = rng.choice([0, 0.3, 0.7, 1.0])  # how callers obtain the handle they call (clone / clone of a ready handle / swap idiom / the template)
+    r1 = rng.random()
+    if r1 < 0.15:
+        # a preset constructor customised afterwards: the preset's "reject when full" stays unless a wait is set
+        header += " preset=%s" % rng.choice(sorted(PRESETS))
+        if wait is None and "wait=max" not in header:
+            wait = 0
+    elif r1 < 0.25:
+        header += " ctor=%s" % rng.choice(["new", "default"])
+    if rng.random() < 0.15:
+        header += " name=b%d" % rng.randint(0, 9)
+    d = Dims(rng)
     idle_p = rng.choice([0, 0, 0.1, 0.3])
     ondrop_p = rng.choice([0, 0.3, 0.8])
     dropsvc_p = rng.choice([0, 0, 0.5])
@@ -65,11 +173,14 @@ def gen(rng, tier):
             c = pending.pop(0)
             lat = rng.choice([0, 0, 1, 5, 10, rng.randint(0, 60)])
             out = pick_outcome(rng)
-            via = rng.choice(VIAS) if rng.random() < via_p else ""
-            ops.append("arrive %d inner=%d:%s%s%s" % (c, lat, out, " burn=1" if rng.random() < burn_p else "", via))
+            ops.append("arrive %d inner=%d:%s%s" % (c, lat, out, d.words(rng)))
             arrived.append(c)
             if rng.random() < idle_p:
-                ops.append("manual readyidle")   # a handle polled ready and then kept, never called
+                # a handle polled ready and then kept, never called; sometimes its readiness fails and it is discarded
+                ops.append("manual readyidle" + (" svc=%d" % d.svc(rng) if d.nsvc > 1 else "") +
+                           (" rdy=" + rng.choice(RDY_FAIL + RDY_OK) if rng.random() < 0.3 else ""))
+            if d.nsvc > 1 and rng.random() < 0.05:
+                ops.append("manual clonelayer")  # services built from now on come from a clone of the layer value
             if rng.random() < 0.6:
                 ops.append("poll %d" % c)
                 marks.append(now + lat)
@@ -86,7 +197,8 @@ def gen(rng, tier):
                 # a request arriving from inside the destructor of the dropped caller's inner call (or from another
                 # thread while it is being destroyed): the call is still in flight, its slot still taken
                 c2 = pending.pop(0)
-                ops.append("manual ondrop c=%d by=%d inner=%d:%s" % (c, c2, rng.choice([0, 1, 5, 20]), pick_outcome(rng)))
+                ops.append("manual ondrop c=%d by=%d inner=%d:%s%s" % (c, c2, rng.choice([0, 1, 5, 20]), pick_outcome(rng),
+                                                                      d.words(rng).replace(" burn=1", "")))
                 arrived.append(c2)
             ops.append("drop %d" % c)
         elif r < 0.70 and rng.random() < dropsvc_p:
@@ -94,22 +206,28 @@ def gen(rng, tier):
         elif r < 0.90:
             fut = [m for m in marks if m >= now]
             if fut and rng.random() < 0.7:
-                d = max(0, rng.choice(fut) - now + rng.choice([-1, 0, 0, 0, 1]))
+                dd = max(0, rng.choice(fut) - now + rng.choice([-1, 0, 0, 0, 1]))
             else:
-                d = rng.choice([0, 1, 2, 5, 10, rng.randint(0, 30)])
-            ops.append("adv %d" % d)
-            now += d
+                dd = rng.choice([0, 1, 2, 5, 10, rng.randint(0, 30)])
+            ops.append("adv %d" % dd)
+            now += dd
         else:
             ops.append("settle")
-    # C07: quiescence, then a probe burst of `max` gated calls (+1 that must wait / be rejected)
+    # C07: quiescence, then a probe burst of `max` gated calls (+1 that must wait / be rejected) on every service —
+    # sometimes without quiescence of the OTHER services: a service is probed while its siblings are still busy
     ops.append("settle")
     if rng.random() < 0.8:
-        ops.append("dropall")
+        quiesce = d.nsvc == 1 or rng.random() < 0.6
+        if quiesce:
+            ops.append("dropall")
         ops.append("adv %d" % rng.choice([0, 1, 100]))
-        ids = [100 + i for i in range(mx + (1 if rng.random() < 0.5 else 0))]
-        for c in ids:
-            ops.append("arrive %d inner=1000:ok%s%s" % (c, " burn=1" if rng.random() < burn_p else "", rng.choice(VIAS) if rng.random() < via_p else ""))
-        order = ids[:]
+        allids = []
+        for k in (range(d.nsvc) if quiesce else [rng.randint(1, d.nsvc - 1)]):
+            ids = [100 * (k + 1) + i for i in range(mx + (1 if rng.random() < 0.5 else 0))]
+            for c in ids:
+                ops.append("arrive %d inner=1000:ok%s" % (c, d.words(rng, svc=k, may_fail=False)))
+            allids += ids
+        order = allids[:]
         rng.shuffle(order)
         for c in order:
             ops.append("poll %d" % c)
@@ -120,29 +238,57 @@ def gen(rng, tier):
 
 
 def _scan(case, lines, meta):
-    """walk the implementation log; yields per-position state needed by the monitors"""
+    """the configuration the header describes: (max_concurrent_calls, max_wait in ms or None)"""
     cfg = kvs(case["header"])
-    mx = int(cfg.get("max", "1"))
+    preset = cfg.get("preset") if cfg.get("preset") in PRESETS else None
+    mx = int(cfg["max"]) if "max" in cfg else (PRESETS[preset] if preset else 1)
     wait = int(cfg["wait"]) if "wait" in cfg and cfg["wait"] != "max" else None   # "max": Duration::MAX, never due
-    # builder setter order: the last of reject_when_full() / max_wait_duration(..) decides
-    if cfg.get("post") == "reject" or (cfg.get("pre") == "reject" and "wait" not in cfg):
+    # builder setter order: the last of reject_when_full() (the presets call it too) / max_wait_duration(..) decides
+    if cfg.get("post") == "reject" or ((cfg.get("pre") == "reject" or preset) and "wait" not in cfg):
         wait = 0
     return mx, wait
 
 
+def _callers(case):
+    """from the op file alone: caller -> service it goes through (`svc=`, default 0), and what its handle's readiness
+    script comes to ('ready' / 'error' / 'notready')"""
+    owner, rdy = {}, {}
+    for o in case["ops"]:
+        w = o.split()
+        if not w:
+            continue
+        c = None
+        if w[0] == "arrive" and len(w) > 1:
+            c, kv = w[1], kvs(" ".join(w[2:]))
+        elif w[:2] == ["manual", "ondrop"]:
+            kv = kvs(" ".join(w[2:]))
+            c = kv.get("by")
+        if c is not None and c not in owner:
+            owner[c] = kv.get("svc", "0")
+            rdy[c] = rdy_outcome(kv.get("rdy"))
+    return owner, rdy
+
+
 def mon_c01(case, lines, meta):
+    """at most max_concurrent_calls requests are inside the wrapped service of ONE bulkhead (= one service built from
+    the layer, all its handles counted), whatever else happened — including inner readiness failures on some handle"""
     mx, _ = _scan(case, lines, meta)
-    inflight = set()
+    owner, _ = _callers(case)
+    inflight = {}
+    where = {}
     for i, l in enumerate(lines):
         t, w = tparse(l)
         if not w:
             continue
         if w[0] == "inner_call":
-            inflight.add(w[2])
-            if len(inflight) > mx:
-                return "line %d: %d calls inside the inner service, max_concurrent_calls=%d (%s)" % (i, len(inflight), mx, l)
+            k = owner.get(w[1], "0")
+            inflight.setdefault(k, set()).add(w[2])
+            where[w[2]] = k
+            if len(inflight[k]) > mx:
+                return "line %d: %d calls inside the inner service%s, max_concurrent_calls=%d (%s)" % (
+                    i, len(inflight[k]), "" if len(set(owner.values())) <= 1 else " of service %s" % k, mx, l)
         elif w[0] in ("inner_done", "inner_drop"):
-            inflight.discard(w[2])
+            inflight.get(where.get(w[2], "0"), set()).discard(w[2])
     return None
 
 
@@ -177,42 +323,59 @@ def first_visited_at_or_after(case, instant):
 
 
 def mon_c07(case, lines, meta):
+    """per service built from the layer (services share nothing): admitted at once while the service has a free slot
+    and no waiter — however busy its siblings are —, rejected only by the wait timeout, at the deadline, never after
+    reaching the inner service; a request whose handle did not become ready never reaches the inner service"""
     mx, wait = _scan(case, lines, meta)
+    owner, rdy = _callers(case)
     ev = _timeline(lines, meta)
     fp = {}
-    inflight = set()       # serials inside inner
-    waiting = set()        # callers first-polled, neither admitted nor resolved nor dropped
+    inflight = {}          # service -> serials inside inner
+    where = {}
+    waiting = {}           # service -> callers first-polled, neither admitted nor resolved nor dropped
     called = set()
     wakes = {}
+    multi = len(set(owner.values())) > 1
     for i, (kind, w, t) in enumerate(ev):
         if not w:
             continue
         if kind == "meta" and w[0] == "#fp":
             c = w[1]
+            k = owner.get(c, "0")
             fp[c] = t
-            # admitted at once if fewer than max in flight and nobody queued
-            if len(inflight) < mx and not waiting:
+            # admitted at once if fewer than max in flight and nobody queued (in the caller's own service)
+            if len(inflight.get(k, ())) < mx and not waiting.get(k):
                 nxt = ev[i + 1] if i + 1 < len(ev) else None
                 if not (nxt and nxt[0] == "line" and nxt[1][:2] == ["inner_call", c]):
-                    return "caller %s first polled at t=%s with %d/%d in flight and nobody queued, but not admitted at once" % (c, t, len(inflight), mx)
-            waiting.add(c)
+                    busy = sum(len(v) for kk, v in inflight.items() if kk != k)
+                    return "caller %s first polled at t=%s with %d/%d in flight%s and nobody queued, but not admitted at once%s" % (
+                        c, t, len(inflight.get(k, ())), mx, " in its service %s" % k if multi else "",
+                        " (%d calls are in flight in OTHER services built from the same layer)" % busy if busy else "")
+            waiting.setdefault(k, set()).add(c)
         elif kind == "meta" and w[0] == "#wake":
             wakes[w[1]] = [int(x) for x in w[2].split(",")]
         elif kind == "meta" and w[0] == "#drop":
-            waiting.discard(w[1])
+            waiting.get(owner.get(w[1], "0"), set()).discard(w[1])
         elif kind == "meta" and w[0] == "#pollend":
             c = w[1]
-            if c in waiting and c in fp and wait is not None and t is not None and t >= fp[c] + wait:
+            if c in waiting.get(owner.get(c, "0"), ()) and c in fp and wait is not None and t is not None and t >= fp[c] + wait:
                 return "caller %s (arrived t=%s, max_wait=%s) was polled at t=%s, had no slot, and was neither admitted nor rejected: it waits beyond its deadline" % (c, fp[c], wait, t)
         elif kind == "line" and w[0] == "inner_call":
-            inflight.add(w[2])
+            k = owner.get(w[1], "0")
+            if len(inflight.get(k, ())) >= mx:
+                return "caller %s was let into the inner service at t=%s while all %d slots%s were taken: a caller that cannot get a slot waits or is rejected by the wait timeout" % (
+                    w[1], t, mx, " of its service %s" % k if multi else "")
+            inflight.setdefault(k, set()).add(w[2])
+            where[w[2]] = k
             called.add(w[1])
-            waiting.discard(w[1])
+            waiting.get(k, set()).discard(w[1])
+            if rdy.get(w[1], "ready") != "ready":
+                return "caller %s reached the inner service although its handle never became ready (readiness: %s)" % (w[1], rdy[w[1]])
         elif kind == "line" and w[0] in ("inner_done", "inner_drop"):
-            inflight.discard(w[2])
+            inflight.get(where.get(w[2], "0"), set()).discard(w[2])
         elif kind == "line" and w[0] == "result":
             c = w[1]
-            waiting.discard(c)
+            waiting.get(owner.get(c, "0"), set()).discard(c)
             if w[2] == "err:timeout":
                 if wait is None:
                     return "caller %s rejected with timeout although max_wait is unbounded" % c
@@ -225,11 +388,23 @@ def mon_c07(case, lines, meta):
                     return "caller %s (arrived t=%s, max_wait=%s) was not woken at its deadline (wake-ups since its previous poll: %s); rejected only when polled at t=%s" % (c, fp[c], wait, wakes.get(c, []), t)
             elif w[2] == "err:full":
                 return "caller %s rejected with BulkheadFull (semaphore closed?)" % c
+            elif w[2].startswith("err:accessor-mismatch"):
+                return "caller %s: the error's accessors / conversion disagree with its variant (%s)" % (c, w[2])
     return None
 
 
 def transitions(case, lines, meta=None):
     tags = []
+    hdr = kvs(case["header"])
+    if hdr.get("preset") in PRESETS:
+        tags.append("preset-" + hdr["preset"] + ("" if "max" not in hdr else "-customised"))
+    owner, rdy = _callers(case)
+    if len(set(owner.values())) > 1:
+        tags.append("several-services")
+    for o in case["ops"]:
+        if " via=pool" in o:
+            tags.append("handle-reused")
+            break
     for l in lines:
         _, w = tparse(l)
         if not w:
@@ -238,6 +413,8 @@ def transitions(case, lines, meta=None):
             tags.append("inner_call")
         elif w[0] == "inner_drop":
             tags.append("dropped-running")
+        elif w[0] == "result" and rdy.get(w[1], "ready") != "ready":
+            tags.append("refused-" + rdy[w[1]])
         elif w[0] == "result":
             tags.append("result-" + w[2].split(":")[0] + ("-timeout" if w[2] == "err:timeout" else "") + ("-panic" if w[2] == "panic" else ""))
     return tags
@@ -253,12 +430,17 @@ COMMON = {
     "gen": gen,
     "transitions": transitions,
     "nontrivial": nontrivial,
-    "all_transitions": ["inner_call", "dropped-running", "result-ok", "result-err", "result-err-timeout", "result-panic-panic"],
-    "model_modules": ["TR.Model.Bulkhead", "TR.Lemmas.Bulkhead", "TR.Lemmas.Bulkhead2"],
-    "lean_files": ["TR.Model.Bulkhead", "TR.Lemmas.Bulkhead", "TR.Lemmas.Bulkhead2"],
+    "all_transitions": ["inner_call", "dropped-running", "result-ok", "result-err", "result-err-timeout", "result-panic-panic",
+                        "refused-error", "refused-notready", "several-services", "handle-reused",
+                        "preset-small", "preset-medium", "preset-large", "preset-small-customised"],
+    "model_modules": ["TR.Model.Bulkhead", "TR.Lemmas.Bulkhead", "TR.Lemmas.Bulkhead2", "TR.Lemmas.BulkheadMulti"],
+    "lean_files": ["TR.Model.Bulkhead", "TR.Lemmas.Bulkhead", "TR.Lemmas.Bulkhead2", "TR.Lemmas.BulkheadMulti"],
     "sizes": (500, 30000),
     "rule": "seeded random op sequences (arrive/poll/drop/adv/settle) over 1..10 callers, max 1..4, max_wait none/0/1..50ms, "
-            "advances biased to deadline-1/deadline/deadline+1, followed by a quiescence + probe burst; distinct = distinct "
+            "advances biased to deadline-1/deadline/deadline+1, followed by a quiescence + probe burst; 1..3 services built from the one "
+            "layer value (or clones of it), handles obtained by clone / clone-of-ready / swap / template / a kept handle called again, "
+            "inner readiness failing or pending on the handle of some arrivals and idle handles, layers built through the presets "
+            "(used as they come: filled to 10/50/200, or customised), `.name`, `BulkheadConfigBuilder::new/default`; distinct = distinct "
             "implementation event log; non-trivial = a wait timeout, a cancelled running call, a panic, or >= 3 admissions",
     "trusted": ["tokio Semaphore/timeout semantics as transcribed in TR.Model.Bulkhead (sampled by the correspondence check)",
                 "harness: clock_gettime interposition, manual poller, scripted inner service", "python diff/monitors"],
@@ -274,14 +456,20 @@ LEVEL_NOTE = ("Trusted: Lean kernel; the transcription of tokio's Semaphore (FIF
 SPECS = {
     "C01": dict(COMMON, module="TR.Props.C01", monitors=[("c01-inflight-bound", mon_c01)],
                 level_text="Theorems TR.Props.C01.{bound,trace_bound,trace_matches_state,permits_conserved}: for every configuration and every "
-                           "operation sequence (all arrival/poll/cancel/advance orders, all inner scripts) at most max calls are inside the inner "
-                           "service, in every prefix of the event log; proved by an inductive counting invariant. The model is tied to the real "
+                           "operation sequence (all arrival/poll/cancel/advance orders, all inner scripts, inner readiness failures at any point) at "
+                           "most max calls are inside the inner service, in every prefix of the event log; proved by an inductive counting invariant. "
+                           "{readiness_failure_changes_nothing}: a handle whose readiness fails costs and frees nothing. "
+                           "{services_bound,services_trace_bound,services_permits_conserved}: every service built from one layer value has the full "
+                           "bound of its own, after any multi-service history; {preset_bounds}: the presets' documented numbers. The model is tied to the real "
                            "BulkheadLayer by line-for-line agreement of event logs on generated schedules.",
                 level_note=LEVEL_NOTE),
     "C07": dict(COMMON, module="TR.Props.C07", monitors=[("c07-capacity-and-rejection", mon_c07)],
                 level_text="Theorems TR.Props.C07.{quiescent_full,no_waiter_while_free,admit_at_once,reject_only_by_timeout,one_phase,rejected_never_runs,cancelled_while_waiting_never_runs}: after any history all "
                            "permits return once nothing is in flight; a first poll with spare capacity reaches the inner service in that step; "
                            "err:timeout is emitted only for max_wait=0 with no free permit or for a queued, unassigned caller at/after its deadline. "
-                           "Exactness of the rejection instant (timer wake-up at the deadline) is observed by the harness's waker monitor, not proved.",
+                           "Exactness of the rejection instant (timer wake-up at the deadline) is observed by the harness's waker monitor, not proved. "
+                           "{services_independent,service_admit_at_once,service_quiescent_full,service_rejected_never_runs}: services built from one layer "
+                           "value share nothing — an idle service admits at once whatever its siblings hold; {refused_never_runs}: a request whose "
+                           "handle did not become ready never reaches the inner service; {presets_reject_when_full}.",
                 level_note=LEVEL_NOTE),
 }
